@@ -31,7 +31,7 @@ MIN_HITS = {'quick': 1500, 'thorough': 60000}
 CASE_TIMEOUT = 900
 
 PROT = ['ALA', 'GLY', 'SER', 'LYS', 'GLU', 'CYS', 'ASP', 'VAL', 'THR', 'PHE']
-LIGS = ['PO4', 'C16', 'LIG', 'HEM']
+LIGS = ['PO4', 'C16', 'LIG', 'HEM', '2MG', 'MG', 'C8E', 'E', '5MC']     # names with a digit inside (modified nucleotides, hetero names) and their digit-free tails
 MODS = ['N-ter', 'C-ter', 'NH2-ter', 'COOH-ter', 'none']
 
 
@@ -247,7 +247,9 @@ def expected_targets(mols, specs):
     return marks, [i for i, x in enumerate(matched_any) if not x]
 
 
-def check_annotation(mols, specs, b):
+def check_annotation(mols, specs, b, earlier=None):
+    """`earlier`: molecules of ANOTHER system the same processor object is run on first (a processor is built once and
+    may be run on several systems); what it found there says nothing about this system."""
     from vermouth.processors.annotate_mut_mod import AnnotateMutMod
     cap = util.capture()
     system = build(mols)
@@ -261,7 +263,14 @@ def check_annotation(mols, specs, b):
     muts = [(s['text'], s['target']) for s in specs if s['kind'] == 'mutation']
     b.hits += 1
     try:
-        AnnotateMutMod(modifications=mods, mutations=muts).run_system(system)
+        proc = AnnotateMutMod(modifications=mods, mutations=muts)
+        if earlier is not None:
+            try:
+                proc.run_system(build(earlier))
+            except Exception:
+                pass
+            cap.clear()
+        proc.run_system(system)
         raised = None
     except Exception as e:
         raised = e
@@ -513,6 +522,16 @@ def run_case(params):
                 'digit_names': sum(1 for s in specs if s['text'].count('#'))})
         if len(mols) >= 2 and len(specs) >= 2 and info['unmatched'] and info['marked_residues']:
             b.nontrivial(desc, desc)
+        if len(mols) >= 2 and j % 3 == 0:
+            # the processor object has seen the whole system before; it is then run on a system that lacks the last molecule:
+            # requests only that molecule satisfied match nothing in the system at hand and must be reported for it
+            b.total += 1
+            p4, info4, _ = check_annotation(mols[:-1], specs, b, earlier=mols)
+            if p4:
+                b.violation('reused-processor/' + p4[0], 'the same processor run on a second system (%s)' % p4[0],
+                            {'subcase': j, 'detail': p4[1], 'case': desc, 'second_system': 'the molecules but the last'})
+                continue
+            b.feat({'reused_processor_runs': 1, 'reused_processor_unmatched': info4['unmatched'] - info['unmatched']})
         if system is not None:
             marks, _ = expected_targets(mols, specs)
             copies = rnd.random() < 0.3
